@@ -326,11 +326,47 @@ class Prov:
         c = t["callee"]
         site = (bid, "t")
         args = tuple(self.operand(fn, a, site) for a in t["args"])
+        if c["key"].endswith("box_assume_init_into_vec_unsafe") and t["args"]:
+            v = self._vec_macro(fn, t["args"][0], bid)
+            if v is not None:
+                return v
         if callee_is_vp(c) and args:
             return ("vp", c["name"], args[0])
         if c["key"] == "<indirect>":
             return ("call", "<indirect>", (self.operand(fn, c["indirect"], site),) + args, None, (fn.key, bid))
         return ("call", c["key"], args, c.get("resolved"), (fn.key, bid))
+
+    def _vec_macro(self, fn, op, bid):
+        """`vec![a, b]` at mir-opt-level=0: Box::new_uninit(); (*ptr).value.value.0 = [a, b]; box_assume_init_into_vec_unsafe(box).
+        Returns ("agg", "vec", elements) when the pattern is recognised."""
+        # the box local
+        cur = op
+        box_local = None
+        for _ in range(6):
+            if cur["k"] not in ("copy", "move") or cur["place"]["p"]:
+                break
+            l = cur["place"]["l"]
+            ds = self.defs(fn).get(l, [])
+            if len(ds) == 1 and ds[0][0] == "call" and ds[0][3]["callee"]["key"].endswith("Box::new_uninit"):
+                box_local = l
+                break
+            if len(ds) == 1 and ds[0][0] == "assign" and ds[0][3]["rv"]["k"] == "use":
+                cur = ds[0][3]["rv"]["op"]
+                continue
+            break
+        if box_local is None:
+            return None
+        # pointers derived from the box
+        ptrs = set()
+        for b2, i2, st in fn.stmts():
+            if st["k"] == "assign" and st["rv"]["k"] == "cast" and st["rv"]["op"]["k"] in ("copy", "move") and st["rv"]["op"]["place"]["l"] == box_local:
+                ptrs.add(st["dst"]["l"])
+        for b2, i2, st in fn.stmts():
+            if st["k"] == "assign" and st["dst"]["l"] in ptrs and st["dst"]["p"] and st["dst"]["p"][0]["k"] == "deref" and \
+                    st["rv"]["k"] == "aggregate" and st["rv"]["agg"] == "array":
+                ops = [self.operand(fn, o, (b2, i2)) for o in st["rv"]["ops"]]
+                return ("agg", "vec", tuple((str(i), o) for i, o in enumerate(ops)))
+        return None
 
     # ---------------------------------------------------------------- closures
     def closure_site(self, fn):
